@@ -96,6 +96,7 @@ func runC05(c *Ctx) {
 		var states []string // states[n] = canonical #c snapshot after line n
 		members := []string{}
 		fresh := 0
+		topicSet := false
 		push := func(verb, l string) {
 			lines = append(lines, l)
 			verbs = append(verbs, verb)
@@ -150,8 +151,16 @@ func runC05(c *Ctx) {
 				members[i] = neu
 			case k < 9:
 				t := fmt.Sprintf("t%d", n)
-				apply("Topic", "#c", t)
-				push("TOPIC", fmt.Sprintf(":srv TOPIC #c :%s", t))
+				if n%3 == 0 && topicSet {
+					// the topic is removed: an empty trailing parameter (the sender's name keeps the raw line unique)
+					apply("Topic", "#c", "")
+					push("TOPIC", fmt.Sprintf(":clr%d!i@h TOPIC #c :", n))
+					topicSet = false
+				} else {
+					apply("Topic", "#c", t)
+					push("TOPIC", fmt.Sprintf(":srv TOPIC #c :%s", t))
+					topicSet = true
+				}
 			case k < 10:
 				apply("ChannelModes", "#c", "+l", strconv.Itoa(n+1000))
 				push("MODE", fmt.Sprintf(":srv MODE #c +l %d", n+1000))
